@@ -488,8 +488,10 @@ WOp(w, ev) ==
 \* panics after the raw insert; the value must be taken out and destroyed again
 \* (exactly once), the storage is unchanged                                (C08)
 OobInsert(w, ev) ==
+  \* a change-tracking wrapper may report the raw insertion and its undoing (membership replay stays correct)
   [w |-> IF ev.panicked
-         THEN [w EXCEPT !.led = LedSet(w.led, ev.c[1], "destroyed"), !.zdes = IF w.zst[ev.s] THEN w.zdes + 1 ELSE w.zdes]
+         THEN Ev1(Ev1([w EXCEPT !.led = LedSet(w.led, ev.c[1], "destroyed"), !.zdes = IF w.zst[ev.s] THEN w.zdes + 1 ELSE w.zdes],
+                      ev.s, "I", ev.id, TRUE), ev.s, "R", ev.id, TRUE)
          ELSE w,
    f |-> IF ~ev.panicked THEN {F("C08", "insertion beyond the mask's range did not fail", ev.c)} ELSE {}]
 
